@@ -226,6 +226,29 @@ def literal_matrix(node):
     return rows
 
 
+def folded_matrix(node):
+    """Constant folding of a nested comprehension whose only free names are degree (= 4), comb/factorial/min/max/range/abs/float/int
+    and its own loop variables; entries are returned as Fractions (floats are snapped to the nearest fraction with denominator <= 1000)."""
+    import math
+    if not isinstance(node, ast.ListComp):
+        return None
+    allowed = {"comb": math.comb, "factorial": math.factorial, "min": min, "max": max, "range": range, "abs": abs, "float": float, "int": int,
+               "len": len, "degree": 4, "d": 4}
+    bound = {t.id for c in ast.walk(node) if isinstance(c, ast.comprehension) for t in ast.walk(c.target) if isinstance(t, ast.Name)}
+    for x in ast.walk(node):
+        if isinstance(x, ast.Name) and x.id not in allowed and x.id not in bound:
+            return None
+        if isinstance(x, (ast.Attribute, ast.Lambda, ast.Await, ast.Yield, ast.NamedExpr, ast.Starred)):
+            return None
+        if isinstance(x, ast.Call) and not (isinstance(x.func, ast.Name) and x.func.id in allowed):
+            return None
+    try:
+        val = eval(compile(ast.Expression(node), "<fold>", "eval"), {"__builtins__": {}}, dict(allowed))
+        return [[Fraction(e).limit_denominator(1000) for e in row] for row in val]
+    except Exception:
+        return None
+
+
 @rule("R15.4", min_instances=26, desc="the literal power->Bernstein matrix equals C(i,j)/C(4,j) and is applied on the left of the transposed coefficients")
 def r15_4(ctx):
     prog = ctx.prog
@@ -237,7 +260,15 @@ def r15_4(ctx):
             if m and len(m) >= 2 and all(len(r) == len(m) for r in m):
                 mats.append((node, m))
     if not mats:
-        raise AnalysisError("add_inf_constraints: no literal square matrix found")
+        # the table may be written as a closed formula (nested comprehension over range(degree+1) of arithmetic in comb/min/max):
+        # such a constant expression is folded here for degree = 4 and compared entry by entry like the literal (C15-r12-2)
+        for node in walk_no_nested(f.node):
+            if isinstance(node, ast.Assign) and isinstance(node.value, ast.Call) and node.value.args:
+                m = folded_matrix(node.value.args[0])
+                if m and len(m) >= 2 and all(len(r) == len(m) for r in m):
+                    mats.append((node, m))
+    if not mats:
+        raise AnalysisError("add_inf_constraints: no literal or foldable square matrix found")
     node, m = mats[0]
     d = len(m) - 1
     ctx.check(d == 4, "Bernstein matrix size", detail="unexpected degree", expected="5x5 (degree 4)", found="%dx%d" % (len(m), len(m)), fi=f, node=node)
